@@ -44,7 +44,11 @@ func (c *Conversation) processAKE(msgType byte, msg []byte) (toSend []messageWit
 
 	switch msgType {
 	case msgTypeDHCommit:
-		c.ake.state, toSendSingle, err = c.ake.state.receiveDHCommitMessage(c, msg)
+		// Receiving a DH commit message discards the state of an exchange in
+		// progress. A malformed message must not do that.
+		if err = (&dhCommit{}).deserialize(msg); err == nil {
+			c.ake.state, toSendSingle, err = c.ake.state.receiveDHCommitMessage(c, msg)
+		}
 	case msgTypeDHKey:
 		c.ake.state, toSendSingle, err = c.ake.state.receiveDHKeyMessage(c, msg)
 	case msgTypeRevealSig:
